@@ -55,6 +55,7 @@ type FuncContract struct {
 	Trusted    bool
 	Inline     bool
 	NoSafety   bool
+	ExactStrings bool // force the SMT string theory for this unit (string concatenation in the code matters)
 	Pkg        string // home package of the contract text (for unqualified names); "" = caller's
 	File       string
 	Line       int
@@ -119,7 +120,7 @@ func NewContracts() *Contracts {
 
 var keywords = map[string]bool{"func": true, "requires": true, "ensures": true, "assigns": true, "elems": true, "emits": true, "emit": true,
 	"loop": true, "invariant": true, "decreases": true, "pred": true, "spec": true, "axiom": true, "lemma": true, "event": true,
-	"ghost": true, "at": true, "inline": true, "bounded": true, "havoc": true, "nosafety": true, "assume": true}
+	"ghost": true, "at": true, "inline": true, "bounded": true, "exactstrings": true, "havoc": true, "nosafety": true, "assume": true}
 
 type rawLine struct {
 	text string
@@ -312,6 +313,11 @@ func (cs *Contracts) parseLines(lines []rawLine, trusted bool, home string) erro
 				return errf("inline outside func")
 			}
 			cur.Inline = true
+		case kw == "exactstrings":
+			if cur == nil {
+				return errf("exactstrings outside func")
+			}
+			cur.ExactStrings = true
 		case kw == "bounded":
 			if cur == nil {
 				return errf("bounded outside func")
